@@ -652,7 +652,7 @@ class C13(SimSpec):
 
     def strategy(self, tier):
         kw = self.gen_kwargs(tier)
-        base = mix((3, scenarios(min_obs=2, delays=True, **kw)), (2, crowd(kw)), (1, tight(kw)),
+        base = mix((3, scenarios(min_obs=2, delays=True, **kw)), (2, crowd(kw)), (2, tight(kw)),
                    (1, scenarios(unsorted=True, min_obs=2, **kw)), (1, scenarios(**kw)))
 
         def add(pair):
@@ -727,6 +727,9 @@ class C17(SimSpec):
         kw = self.gen_kwargs(tier)
         return mix((3, scenarios(algs=('dynamic',), piled_plans=True, min_obs=2, delays=True, **kw)),
                    (1, crowd(kw, algs=('dynamic',), piled_plans=True, delays=True)),
+                   # "however long that machine is kept busy by ingest": long observations holding planned machines
+                   (2, scenarios(algs=('dynamic',), piled_plans=True, min_obs=2, long_durations=True, few_machines=True,
+                                 modes=('roomy',), start_gaps=(0, 1, 2, 3), **kw)),
                    (1, scenarios(algs=('dynamic',), piled_plans=True, **kw)))
 
     def nontrivial(self, tr):
